@@ -1,6 +1,7 @@
 import Lean.Data.Json
 import Verif.Model.Schema
 import Verif.Gen.Schemas
+import Verif.Gen.Builders
 open Lean
 -- DRIVER: schema
 namespace Verif.Drv.Schema
@@ -81,6 +82,27 @@ def handle (j : Lean.Json) : Except String Lean.Json := do
     match validate cfg (.ref cls) v with
     | .error e => return Lean.Json.mkObj [("ok", .bool false), ("why", .str e)]
     | .ok tv => return Lean.Json.mkObj [("ok", .bool true), ("dump", enc (dump cfg byAlias exclNone tv))]
+  | "build" =>
+    -- a `create_*` helper of Gen/Builders on keyword arguments (wire values)
+    let name ← j.getObjValAs? String "name"
+    let modn ← j.getObjValAs? String "module"
+    match Verif.Gen.Builders.builders.find? (fun b => b.name == name && b.module == modn), v with
+    | some b, .obj args =>
+      match b.run cfg args with
+      | .error e => return Lean.Json.mkObj [("ok", .bool false), ("why", .str e)]
+      | .ok tv => return Lean.Json.mkObj [("ok", .bool true), ("dump", enc (dump cfg true true tv)),
+          ("dumpPlain", enc (dump cfg false false tv)), ("tree", encTree (typeTree cfg tv))]
+    | none, _ => return Lean.Json.mkObj [("untranslated", .bool true)]
+    | _, _ => throw "arguments must be an object"
+  | "parseBy" =>
+    let name ← j.getObjValAs? String "name"
+    match Verif.Gen.Builders.parsers.find? (fun p => p.name == name) with
+    | some p =>
+      match p.run cfg v with
+      | .error e => return Lean.Json.mkObj [("ok", .bool false), ("why", .str e)]
+      | .ok tv => return Lean.Json.mkObj [("ok", .bool true), ("dump", enc (dump cfg true true tv)),
+          ("tree", encTree (typeTree cfg tv))]
+    | none => return Lean.Json.mkObj [("untranslated", .bool true)]
   | _ => throw s!"unknown op {op}"
 
 end Verif.Drv.Schema
